@@ -725,6 +725,20 @@ struct H {
             if (ig != iw) {
                 ctx.deviation(classify("inline-if-text"), "{if} rendered '" + ig + "' expected '" + iw + "' for " + text);
             }
+            // the block form: a condition that has no value, or a value that is not greater than zero, is not satisfied
+            for (const char *form : {"<if case=\"%s\">T<else />F</if>", "<if case=\"0\">Z<else if case=\"%s\">T<else>F</if>"}) {
+                std::string bt = form;
+                bt.replace(bt.find("%s"), 2, text);
+                jm::Units          bu(bt.begin(), bt.end());
+                jm::Buf<char>      bb(bu);
+                StringStream<char> bout;
+                Template::Render(bb.cp(), SizeT(bb.n), value, bout);
+                std::string bg(bout.First() ? bout.First() : "", bout.Length());
+                std::string bw = (iw == "T") ? "T" : "F";
+                if (bg != bw) {
+                    ctx.deviation(classify("block-if-text"), "<if> rendered '" + bg + "' expected '" + bw + "' for " + bt);
+                }
+            }
         }
     }
 };
